@@ -54,9 +54,14 @@ def gen_word(rng):
             return w
 
 
+_bait = {'on': False}
+
+
 def gen_prefix(rng):
     r = rng.random()
-    if r < 0.6:
+    if r < 0.6 or _bait['on']:
+        # (text used after an inner separator in a noise line never has a prefix: `words<sep>pre: B: ...`
+        # is a format line with the prefix `words<sep>pre` -- any text may precede ": ")
         return ''
     return rng.choice(['pre: ', '[12:00:01] INFO: ', 'a b: ', 'x: y: ', 'log> run 3: ', gen_name(rng) + ': '])
 
@@ -85,11 +90,30 @@ def gen_numeral(rng, shapes):
 ALL_SHAPES = ['int', 'dec', 'dot', 'ldot', 'exp']
 
 
-def gen_noise(rng):
+INNER_SEPARATORS = da.INNER_SEPARATORS
+
+
+def gen_noise(rng, adapter=None):
+    """a line in no format.  With an adapter: sometimes a line that has, after some words and a
+    separator other than LF *inside* it, text that would be a format line on its own (a progress
+    display overwritten with CR, a form feed, ...): the adapters split at LF only, so the whole
+    thing is one line that matches nothing and contributes nothing"""
     r = rng.random()
     if r < 0.15:
         return ''
-    return ' '.join(rng.choice(NOISE_WORDS) for _ in range(rng.randint(1, 6)))
+    words = ' '.join(rng.choice(NOISE_WORDS) for _ in range(rng.randint(1, 6)))
+    if adapter is not None and r > 0.7:
+        _bait['on'] = True
+        try:
+            bait_lines, _ = RENDER[adapter](rng, 1)
+        finally:
+            _bait['on'] = False
+        bait = rng.choice(bait_lines)
+        sep = rng.choice(INNER_SEPARATORS)
+        if rng.random() < 0.3:
+            sep = rng.choice([' ', '']) + sep
+        return words + sep + bait
+    return words
 
 
 def ws(rng):
@@ -249,10 +273,10 @@ def gen_case(rng, adapter):
     out = []
     for l in lines:
         while rng.random() < noise_rate:
-            out.append(gen_noise(rng))
+            out.append(gen_noise(rng, adapter))
         out.append(l)
     while rng.random() < noise_rate:
-        out.append(gen_noise(rng))
+        out.append(gen_noise(rng, adapter))
     eol = rng.choice(['\n', '\n', '\r\n', 'mixed'])
     text = ''
     for i, l in enumerate(out):
@@ -266,7 +290,8 @@ def gen_case(rng, adapter):
              for dp in exp]
     return {'adapter': adapter, 'text': text, 'inv': inv, 'eol': {'\n': 'lf', '\r\n': 'crlf'}.get(eol, 'mixed'),
             'expected': expected, 'exact': exact, 'k': k,
-            'extra': max(len(dp) for dp in exp) - 1, 'noise': noise_rate > 0}
+            'extra': max(len(dp) for dp in exp) - 1, 'noise': noise_rate > 0,
+            'inner_sep': any(any(sp in l for sp in INNER_SEPARATORS if sp != '\r') or '\r' in l for l in out if l not in lines)}
 
 
 def ser_expected(exp):
@@ -324,6 +349,8 @@ def check_roundtrip(ck, cases):
         ck.count('extra-criteria:%d' % min(c.get('extra', 0), 5))
         if c.get('noise'):
             ck.count('with-noise')
+        if c.get('inner_sep'):
+            ck.count('noise-with-inner-separator+format-text')
         ck.case(nontrivial_key=('rt', c['adapter'], c['text']),
                 sample={'adapter': c['adapter'], 'text': c['text'][:300], 'iterations': c['k']})
         # model against the expectation: exact
